@@ -283,7 +283,20 @@ def strict_compare(texts, rep, stream):
             stmts += P.split_equations(s)
         except Exception:  # noqa: BLE001
             pass
+    stmts = list(dict.fromkeys(stmts))
     c13.compare_texts(list(dict.fromkeys(texts + stmts)), rep, True, stream)
+    # do the statements fall under the hypotheses of the proved round trip (scan_render)?
+    plain = [s for s in stmts if not s.startswith('`')]
+    for s, o in zip(plain, lc.drive([lc.wf_line(s) for s in plain])):
+        if o == 'wf=1 render=1 scan=1':
+            rep.dist['scan_render:statement-covered-by-theorem'] += 1
+        elif 'render=0' in o:
+            rep.dist['scan_render:tokeniser-mismatch'] += 1
+        elif o == 'wf=1 render=1 scan=0':
+            rep.disagree('scan_render: well-formed token list whose scan differs from the expected matches',
+                         {'stream': stream, 'text': s}, o, 'wf=1 render=1 scan=1')
+        else:
+            rep.dist['scan_render:statement-outside-token-grammar'] += 1
 
 
 for _n, _f in (('programs', w_programs), ('small', w_small), ('fixed', w_fixed)):
